@@ -352,7 +352,18 @@ func (i *interpreter) symConv(dst types.BasicKind, x *Sym) value {
 	case src == types.Float64:
 		return i.mk(b.FToBV(x.T, kindWidth(dst), kindSigned(dst)), dst)
 	case dst == types.Float64:
-		return i.mk(b.BVToF(x.T, kindSigned(src)), dst)
+		// int->float of a wide symbolic integer is very expensive to bit-blast.
+		// It is abstracted by an uninterpreted function whose exact definition is
+		// only asserted when a potential violation has to be confirmed (lazy
+		// refinement, see check()).
+		exact := b.BVToF(x.T, kindSigned(src))
+		if i.ps == nil || x.T.Sort.W < 32 {
+			return i.mk(exact, dst)
+		}
+		nm := fmt.Sprintf("i2f_%v_%d", kindSigned(src), x.T.Sort.W)
+		ab := b.UF(nm, smt.FP64, x.T)
+		i.ps.lazyDefs = append(i.ps.lazyDefs, b.Eq(ab, exact))
+		return i.mk(ab, dst)
 	case dst == types.String:
 		panic("symConv: integer->string of a symbolic value")
 	}
